@@ -173,7 +173,7 @@ STREAMS = {
     "C04": [("shocked", 16, 300), ("shortage", 10, 200), ("tinyind", 6, 60), ("multi", 8, 100), ("rebuild", 6, 80), ("finishing", 8, 80), ("large", 2, 12)],
     "C05": [("shocked", 10, 200), ("shortage", 8, 150), ("crash", 8, 150), ("starve", 8, 60), ("mild", 6, 100), ("sudden", 8, 80), ("large", 2, 12)],
     "C06": [("shocked", 16, 300), ("shortage", 12, 200), ("mild", 14, 200), ("blackout", 4, 40), ("large", 2, 12)],
-    "C07": [("shocked", 22, 400), ("excess", 10, 100), ("handover", 8, 80), ("rebuild", 6, 60), ("large", 2, 12)],
+    "C07": [("shocked", 20, 400), ("excess", 10, 100), ("handover", 8, 80), ("rebuild", 6, 60), ("multi", 4, 40), ("large", 2, 12)],
     "C14": [("shocked", 20, 300), ("shortage", 16, 200), ("earlydt", 10, 100), ("large", 2, 12)],
 }
 
@@ -213,8 +213,8 @@ REPORTED = {"C01": ["production_realised", "overproduction", "final_demand_unmet
 RUN_ORACLES = {"C01": ["c01"], "C05": ["c05_run"], "C20": ["c05_run_c20"], "C07": ["c07_capital"], "C08": ["c08_init"], "C11": ["c11_run"]}
 INIT_OBLIGATIONS = {"C01": ["mkparams"], "C02": ["mkparams"], "C03": ["mkparams"], "C06": ["mkparams"], "C07": ["mkparams", "trackerinit"], "C08": ["trackerinit"], "C13": ["trackerinit"], "C18": ["mkparams"]}
 PAIRED = {"C01": ["long_loop_c01", "table_reuse"], "C05": ["c05_loop", "long_loop_c05", "numeric_labels"], "C10": ["c10_prefix", "long_loop", "c11_order_c10", "copy_midrun", "pure_manual"], "C08": ["event_reuse", "copy_midrun_c08"],
-          "C09": ["event_reuse_c09", "copy_midrun_c09", "pure_manual_c09"], "C14": ["c19_periodic_c14", "pure_manual_c14"], "C02": ["copy_midrun_c02", "pure_manual_c02"], "C04": ["copy_midrun_c04", "fd_rescale"], "C06": ["copy_midrun_c06"], "C20": ["c05_loop_c20"], "C11": ["c11_order", "long_loop_c11", "event_reuse_c11", "copy_midrun_c11"], "C13": ["c13_units"], "C18": ["c18_variants", "c18_orders"],
-          "C19": ["c19_shift", "c19_late", "c19_periodic"], "C17": ["c17_determinism"]}
+          "C09": ["event_reuse_c09", "copy_midrun_c09", "pure_manual_c09", "c11_order_c09"], "C14": ["c19_periodic_c14", "pure_manual_c14"], "C02": ["copy_midrun_c02", "pure_manual_c02"], "C04": ["copy_midrun_c04", "fd_rescale"], "C06": ["copy_midrun_c06"], "C20": ["c05_loop_c20"], "C11": ["c11_order", "long_loop_c11", "event_reuse_c11", "copy_midrun_c11"], "C13": ["c13_units", "long_loop_c13"], "C18": ["c18_variants", "c18_orders"],
+          "C19": ["c19_shift", "c19_late", "c19_periodic", "pure_manual_c19"], "C17": ["c17_determinism"]}
 
 # what a property says about a recorded quantity relies on the record being written under its own name's guard, after its
 # phase (theorems over the regenerated next_step skeleton, Properties/C16.lean)
